@@ -149,6 +149,13 @@ func zzH_C19_callbacks() {
 	} else {
 		zzAssert(zzAnd(e1 == nil, zzAnd(e2 == nil, e3 == nil)), "callback result not returned")
 	}
+	// registering nil returns to the unregistered state
+	RegisterCheckTStruct(nil)
+	RegisterThriftRead(nil)
+	RegisterThriftWrite(nil)
+	zzAssert(CheckTStruct(v) == errCheckTStructNotRegistered, "CheckTStruct after Register(nil) does not yield its specific error")
+	zzAssert(ThriftRead(rd, v) == errThriftReadNotRegistered, "ThriftRead after Register(nil) does not yield its specific error")
+	zzAssert(ThriftWrite(wr, v) == errThriftWriteNotRegistered, "ThriftWrite after Register(nil) does not yield its specific error")
 	fnCheckTStruct, fnThriftRead, fnThriftWrite = nil, nil, nil
 	zzReach("done")
 }
